@@ -199,6 +199,12 @@ func Symbolic() bool { return false }
 // Natively a no-op (the vphost setup helpers then work on the real filesystem).
 func HostFS() {}
 
+// FixedNow pins time.Now() in the symbolic engine to the given Unix time (a constant), for code whose
+// handling of the current time (decimal date formatting and parsing) would otherwise fork per digit.
+// The clock value is then NOT explored; natively a no-op (the real clock is used). Still logged as a
+// nondeterminism source.
+func FixedNow(unixSec int64) {}
+
 func IteU8(c bool, a, b uint8) uint8 {
 	if c {
 		return a
